@@ -49,6 +49,11 @@ pub struct Cfg {
     pub recycle_to: String,
     #[serde(default = "yes")]
     pub has_runtime: bool,
+    /// configure the timeouts on the pool and call get() instead of timeout_get()
+    #[serde(default)]
+    pub pool_level: bool,
+    #[serde(default)]
+    pub pool_wait: String,
 }
 fn none_s() -> String {
     "none".into()
@@ -494,14 +499,19 @@ pub(crate) fn panic_msg(p: Box<dyn std::any::Any + Send>) -> String {
 
 pub fn timeouts_for(cfg: &Cfg, mode: &str) -> Timeouts {
     let fin = Some(Duration::from_secs(1));
+    let of = |s: &str| match s {
+        "finite" => fin,
+        "zero" => Some(Duration::ZERO),
+        _ => None,
+    };
     Timeouts {
         wait: match mode {
             "nb" => Some(Duration::ZERO),
             "timed" => fin,
             _ => None,
         },
-        create: if cfg.create_to == "finite" { fin } else { None },
-        recycle: if cfg.recycle_to == "finite" { fin } else { None },
+        create: of(&cfg.create_to),
+        recycle: of(&cfg.recycle_to),
     }
 }
 
@@ -585,7 +595,11 @@ fn task_main(ix: usize, sh: Arc<Shared>, cmd_rx: Receiver<Cmd>, rep_tx: Sender<(
                 };
                 c.cur_op.set("get");
                 let to = timeouts_for(&sh.cfg, &mode);
-                fut = Some(Box::pin(async move { pool.timeout_get(&to).await }));
+                fut = Some(if sh.cfg.pool_level && mode == sh.cfg.pool_wait {
+                    Box::pin(async move { pool.get().await })
+                } else {
+                    Box::pin(async move { pool.timeout_get(&to).await })
+                });
                 drive(&c, &sh, &mut fut, &waker);
             }
             Cmd::Poll => drive(&c, &sh, &mut fut, &waker),
@@ -809,6 +823,9 @@ impl World {
             .queue_mode(if cfg.lifo { QueueMode::Lifo } else { QueueMode::Fifo });
         if cfg.has_runtime {
             b = b.runtime(Runtime::Tokio1);
+        }
+        if cfg.pool_level {
+            b = b.timeouts(timeouts_for(&cfg, &cfg.pool_wait));
         }
         for i in 1..=cfg.npre {
             b = b.pre_recycle(hook(truth.clone(), CallKind::Pre, i, cfg.async_pre.contains(&i)));
